@@ -35,6 +35,7 @@ type CallHook struct {
 	Kind    string // "call", "go", "defer", "send", "recv", "close", "return"
 	Asserts []*Clause
 	Dos     []*DoStmt
+	Havocs  []string  // locations forgotten after the event (effects of library code that contracts cannot name)
 	Assumes []*Clause // only honoured in extern specs / trusted hooks (listed as assumptions)
 }
 
@@ -382,6 +383,15 @@ func (cs *ContractSet) ParseFile(path, pkgPath string) error {
 				curHook.Assumes = append(curHook.Assumes, c)
 			}
 			lastExpr = &c.Expr
+		case "havoc":
+			if curHook == nil {
+				return fmt.Errorf("%s:%d: havoc outside hook", path, line)
+			}
+			for _, l := range splitCommaTop(rest) {
+				if l = strings.TrimSpace(l); l != "" {
+					curHook.Havocs = append(curHook.Havocs, l)
+				}
+			}
 		case "do":
 			if curHook == nil {
 				return fmt.Errorf("%s:%d: do outside hook", path, line)
